@@ -137,7 +137,7 @@ class Unit:
             numerator[0] = float(numerator[0]) / 100  # percent
         else:
             numerator, denominator = map(str.split, concentration.split('/'))
-        if len(numerator) < 2 or len(denominator) < 1:
+        if len(numerator) != 2 or not 1 <= len(denominator) <= 2:
             raise ValueError("Concentration must be of the form '1 umol/mL'.")
         try:
             numerator[0] = float(numerator[0])
